@@ -311,13 +311,39 @@ def statics(ctx, S):
                 m = re.search(r"\(static: (\w+)", mf.lines[i])
                 if m and m.group(1) not in ("INSTRUCTION_TABLE", "GLSL_STD_450_INSTRUCTION_TABLE", "OPENCL_STD_100_INSTRUCTION_TABLE"):
                     bad.append((name, m.group(1)))
+                m = re.search(r"LocalKey::<|thread_local|static mut |AtomicU|OnceLock|OnceCell|Mutex::<|RwLock::<", mf.lines[i])
+                if m:
+                    bad.append((name, "thread-local / synchronised state (%s)" % m.group(0)))
                 if mf.lines[i].startswith(("const ", "static ")):
                     break
                 i += 1
     ctx.ob("parser-reads-no-global-state/%d-functions" % count, not bad, str(bad[:3]) if bad else None)
+    if not bad:
+        bad = [("(none found in the MIR)", "none")]       # the two-parse validation below is run in any case
+        none_found = True
+    else:
+        none_found = False
     if bad:
-        # a static other than the grammar tables: whether it is mutable state cannot be told from the dump alone
-        ctx.inconclusive.append(("parser-reads-no-global-state", "parser code references static %s (in %s): independence of parses is not established" % (bad[0][1], bad[0][0])))
+        # a static other than the grammar tables: is it state that leaks from one parse into the next? Two parses in one process
+        # (same thread): a binary that declares %1 = OpTypeInt 64 and then one that uses %1 as a constant's type WITHOUT declaring it
+        le = c03.le
+        first = c03.HEADER + le(4 << 16 | 21) + le(1) + le(64) + le(0) + le(5 << 16 | 43) + le(1) + le(2) + le(5) + le(6)
+        second = c03.HEADER + le(4 << 16 | 43) + le(1) + le(2) + le(5)
+        rp_a, rp_b = Replay(), Replay()
+        rp_a.ask("parse_script %s C" % first)
+        after = rp_a.ask("parse_script %s C" % second)
+        alone = rp_b.ask("parse_script %s C" % second)
+        rp_a.close()
+        rp_b.close()
+        if after.get("events") != alone.get("events") or after.get("result") != alone.get("result"):
+            ctx.violation("parser/global-state", "parser code references static %s and a parse depends on the parse before it: after a binary declaring %%1 = OpTypeInt 64, "
+                          "`%%2 = OpConstant %%1 5` of a binary that does not declare %%1 gives %s / %s; parsed alone it gives %s / %s" % (
+                              bad[0][1], after.get("result"), (after.get("events") or [""])[-2:], alone.get("result"), (alone.get("events") or [""])[-2:]),
+                          {"cmd": "parse_script %s C ; parse_script %s C" % (first, second), "real": after})
+        elif not none_found:
+            ctx.inconclusive.append(("parser-reads-no-global-state", "parser code references static %s (in %s); two consecutive parses did not influence each other" % (bad[0][1], bad[0][0])))
+        else:
+            ctx.ob("two-consecutive-parses-are-independent", True)
     newfn = [mf.parse_item(x[2]) for x in mf.find("new") if "binary/parser.rs" in x[0]]
     ok = False
     if len(newfn) == 1:
